@@ -384,7 +384,9 @@ func c18Plan(r *core.Run) []string {
 func runC18(r *core.Run) (bool, string) {
 	r.SetRule("a case is one generated `package semantics` directory (1–4 gofmt-formatted Go files plus optional _test.go, .gold.v, ~ backup, non-Go files and a sub-directory) holding functions of every naming class in random order; " +
 		"each directory carries at most one hostile feature class (" + strings.Join(c18HostileClasses, ", ") + "); distinct by the directory's (file names, declaration list); " +
-		"expected tests come from go/parser, observed tests from parsing the -go and -coq output of the real test_gen binary; the -go output is compiled as generated_test.go next to the package")
+		"expected tests come from go/parser, observed tests from parsing the -go and -coq output of the real test_gen binary; the -go output is compiled as generated_test.go next to the package; " +
+		"prior state of the -out target (prior_state_* keys): for further plain directories × {-go, -coq} × {absent, empty, identical, longer / shorter / same-length real outputs of test_gen on edited versions of the same package (functions added, removed, renamed, failing_ toggled), garbage longer / shorter, trailing newline, output of the other mode, read-only file, symlink, stdout}, " +
+		"plus three edits in a row regenerated into the same two files (the Go one inside the package directory, compiled at the end): after an exit 0 the file must equal byte for byte a generation into a new file, whose test list is itself compared with go/parser; distinct by (state, mode, package[, step])")
 	r.Assume("go/parser and the Go compiler agree with the language specification on what a top-level function is")
 	r.Assume("a function named exactly `test` or `failing_test` is read as outside \"named test…\"; its treatment is only noted")
 	tg, err := r.BuildTestGen()
@@ -392,6 +394,11 @@ func runC18(r *core.Run) (bool, string) {
 		r.Inconclusive("build-test_gen-failed")
 		fmt.Fprintln(os.Stderr, err)
 		return false, "test_gen could not be built: " + err.Error()
+	}
+	if strings.HasPrefix(replaySig(r.Replay), c18PriorSig) {
+		// replay of a finding of the prior-state workload: its cases are a function of the seed only
+		c18PriorStates(r, tg)
+		return r.GetCount("prior_state_files_compared_with_fresh_generation") > 0, "the prior-state workload could not be run"
 	}
 	plan := c18Plan(r)
 	seed := r.Seed
@@ -626,6 +633,10 @@ func runC18(r *core.Run) (bool, string) {
 	r.Set("files_written", nFiles)
 	r.Set("directories", len(plan))
 
+	if r.Replay == "" {
+		c18PriorStates(r, tg)
+	}
+
 	// usage errors: noted only (not part of the statement)
 	u1 := core.Exec(r.Scratch, nil, 30*time.Second, "", tg, modDir(0))
 	u2 := core.Exec(r.Scratch, nil, 30*time.Second, "", tg, "-go", "-coq", modDir(0))
@@ -643,6 +654,9 @@ func runC18(r *core.Run) (bool, string) {
 	}
 	if r.GetCount("expected_tests_total") < 20 {
 		return false, "too few test functions in the generated directories"
+	}
+	if r.NumViolations() == 0 && (r.GetCount("prior_state_files_compared_with_fresh_generation") < 40 || r.GetCount("prior_state_edit_sequences_completed") < 2) {
+		return false, "prior-state workload: fewer than 40 regenerated files compared with a fresh generation, or fewer than 2 edit sequences completed"
 	}
 	return true, ""
 }
